@@ -250,7 +250,7 @@ func (pkt *Packet) authenticate(b []byte, key []byte) error {
 	}
 
 	pos := 0
-	for len(decrytedBuf)-pos >= 28 {
+	for len(decrytedBuf)-pos >= 4 {
 		var eh extHdr
 		eh.unpack(decrytedBuf, pos)
 		if eh.Length < 4 {
